@@ -21,7 +21,10 @@ CLAIMED = {
                  '(all constructors incl. ordered/hashed/indexed collections, deque, wrappers, skipped fields, enums), every value, both de_strict_order settings '
                  'and every trailing byte string, decode(encode v ++ rest) = (logical v, rest). Unbounded: induction over the type universe, loop invariants '
                  'for the element loop and the 1 MiB-chunk/doubling byte loop (all lengths), strict total order of the model of Ord. ' + CORR +
-                 ' 397-type catalogue x generated values in 2 (quick) / 4 (thorough) feature configurations.'),
+                 ' 420-type catalogue x generated values in 2 (quick) / 4 (thorough) feature configurations. Recursive derived items (no term of the type universe) are covered by '
+                 'Properties/C01rec.v: an item is an environment of open terms, unfold e n replaces references below depth n by a type the codec refuses, and typing, bytes, logical value, '
+                 'round trip and decoding are proved independent of the depth beyond the depth of the value (rec_fuel_monotone, C01_rec_round_trip, rec_decode_stable, rec_decode_final), so the '
+                 'comparison of Tree/List/Json/Rec values (depth up to 3000) with finite unfoldings is conclusive.'),
         'design_ref': 'DESIGN.md section 5 C01, section 4',
         'technique': 'Coq proof (induction on the type universe + loop invariants + order theory) + model/implementation differential correspondence',
     },
@@ -58,7 +61,7 @@ CLAIMED = {
         'text': ('Kernel-checked: for EVERY type and EVERY byte string a successful slice decode reads a prefix, is unaffected by what follows (C05_extend), and every proper '
                  'prefix of what it read is rejected with "unexpected length" (C05_consumes_prefix); with C01: streams of heterogeneous values read back in order, the four '
                  'whole-input entry points reject left-over bytes, all six entry points reject every proper prefix of a valid encoding. ' + CORR +
-                 ' Streams of 1..8 values, all/sampled truncation points, tails, six entry points incl. a counting reader.'),
+                 ' Streams of 1..8 values, all/sampled truncation points, tails, six entry points incl. a counting reader; hostile inputs for the recursive items at finite unfoldings (C05_rec_extend).'),
         'design_ref': 'DESIGN.md section 5 C05',
         'technique': 'Coq proof (parser-combinator invariant PS proved for the whole decoder by induction on types) + differential correspondence',
     },
@@ -67,7 +70,7 @@ CLAIMED = {
         'text': ('Kernel-checked: for EVERY type (no well-formedness needed), every byte string and both strictness settings the slice decoder fails only with InvalidData and '
                  'never panics or exhausts model fuel (C16_kind, C16_no_panic); truncated valid encodings give the unexpected-length message, leftovers the not-all-bytes-read '
                  'message, zero-sized collections the public ZST message. ' + CORR + ' Truncations, single-byte corruptions, random strings and adversarial length prefixes over '
-                 'every deserializable catalogue type incl. all feature-gated impls.'),
+                 'every deserializable catalogue type incl. all feature-gated impls; recursive items at finite unfoldings (C16_rec_kind; results equal to the placeholder refusal are counted as inconclusive, never as agreement).'),
         'design_ref': 'DESIGN.md section 5 C16',
         'technique': 'Coq proof (same parser invariant, error-kind clause) + differential correspondence on malformed inputs',
     },
@@ -102,7 +105,7 @@ CLAIMED = {
         'category': 'proof',
         'text': ('Kernel-checked on the model: every guarded collection kind with a memory-zero-sized element/key type is refused with InvalidData+ZST message on serialize for every value '
                  'and on deserialize for EVERY input incl. the empty one (no length read first); zero-sized types themselves and arrays/options of them encode and round-trip. '
-                 'for sequence/set element types that are empty in memory and on the wire the run-time refusal and the ZSTSequence verdict of schema validation agree, and validation never gives that verdict for elements that occupy the wire (C14_agree, C14_agree_converse, under the decidable name-coherence hypothesis that finding F13 shows necessary). ' + CORR + ' mem_zst is compared with the real size_of::<T>() for all 397 catalogue types on every run.'),
+                 'for sequence/set element types that are empty in memory and on the wire the run-time refusal and the ZSTSequence verdict of schema validation agree, and validation never gives that verdict for elements that occupy the wire (C14_agree, C14_agree_converse, under the decidable name-coherence hypothesis that finding F13 shows necessary). ' + CORR + ' mem_zst is compared with the real size_of::<T>() for all catalogue types on every run.'),
         'design_ref': 'DESIGN.md section 5 C14',
         'technique': 'Coq proof (direct from the transcribed guards + round trip) + size_of cross-check + differential correspondence',
     },
@@ -163,7 +166,7 @@ CLAIMED = {
         'text': ('Kernel-checked: writing a value with its schema and reading it back with the same type returns the logical value (C17_round_trip, both strictness settings); reading with a type whose container differs is rejected with the schema-mismatch error or an earlier '
                  'InvalidData decode error (C17_foreign); for EVERY input acceptance implies that the schema part decoded to exactly the reader\'s own container, every refusal is InvalidData, never a panic (C17_corrupt, C17_corrupt_rejected); the container codec round-trips and '
                  'emits definitions in ascending name order (C17_container_canonical, C17_definitions_ascending: a theorem about schema_of). Remaining hypothesis: names are UTF-8 and numbers fit their fields (container_fits, decidable, true of every schema_of result exercised). '
-                 + CORR + ' Ordered pairs of types, mutated schema prefixes, arbitrary containers through the real container codec vs the model\'s and a Python encoder.'),
+                 + CORR + ' Ordered pairs of types, mutated schema prefixes, arbitrary containers through the real container codec vs the model\'s and a Python encoder; call histories (one process per ordered pair of types, always including two items with the same declaration and different definitions) against the stateless model.'),
         'design_ref': 'DESIGN.md section 5 C17; NOTES-schemaof.md',
         'technique': 'Coq proof (C01/C05 instantiated at the container type + equality test) + differential correspondence',
     },
